@@ -118,10 +118,11 @@ def run(ctx):
     scen_list = ["gen", "mid", "lo", "hi"]
     both = ["memory", "pebble"] if thorough else ["memory"]
     backends = {"gen": both, "mid": both, "lo": ["memory"], "hi": ["memory"]}
+    enum_backends = {"gen": ["memory"], "mid": both, "lo": ["memory"], "hi": ["memory"]}
     one = [False, True] if thorough else [False]
     new_state = {"gen": [False, True], "mid": [False, True], "lo": one, "hi": one}
-    n_conf = {"gen": 300, "mid": 400, "lo": 300, "hi": 300} if thorough else {"gen": 30, "mid": 50, "lo": 40, "hi": 40}
-    n_enum = {"gen": 60, "mid": 100, "lo": 80, "hi": 60} if thorough else {"gen": 5, "mid": 8, "lo": 7, "hi": 6}
+    n_conf = {"gen": 200, "mid": 300, "lo": 200, "hi": 200} if thorough else {"gen": 30, "mid": 50, "lo": 40, "hi": 40}
+    n_enum = {"gen": 30, "mid": 40, "lo": 25, "hi": 25} if thorough else {"gen": 5, "mid": 8, "lo": 7, "hi": 6}
     total_conf = total_enum = 0
     for i, sc in enumerate(scen_list):
         for pb in ([1, 99] if thorough else [1]):
@@ -141,7 +142,7 @@ def run(ctx):
                                   files={"ops.cfg": txt}, timeout=900, max_behaviours=want)
             total_enum += len(bs)
             res = engine(ctx, binary, "TestCrashEnum",
-                                 {"consts": c, "behaviours": bs, "newState": new_state[sc], "backends": backends[sc],
+                                 {"consts": c, "behaviours": bs, "newState": new_state[sc], "backends": enum_backends[sc],
                                   "pruneBatch": pb, "plain": False}, timeout=3000)
             ctx.absorb(res, "crash", "TestCrashEnum")
             vlib.log("engine TestCrashEnum %s pb=%d: %d sequences, %.0fs" % (sc, pb, len(bs), res["_wall_s"]))
